@@ -610,4 +610,53 @@ def run(ctx: Ctx, tier: str) -> Result:
     from .common import borrow
     borrow(ctx, res, tier, "c02", ("C02.SNAP",), "C08.SOURCE", "a watch result is built with its source and its expression in their own places (the source is what the wire enum is looked up "
            "with: an expression text there makes the conversion of the whole snapshot fail); the tracepoint's line is a number the wire field can hold")
+    # the built-in basic provider sends the credentials whenever both are configured: `configured` is `is not None` - an empty
+    # user name (a token sent as the password) or an empty password is a configured value
+    bp = p.functions.get("deep.api.auth.BasicAuthProvider.provide")
+    if bp is not None:
+        creds = {}
+        for n_ in t.nodes_in(bp, ast.Assign):
+            if isinstance(n_.targets[0], ast.Name):
+                x_ = ctx.expand.expand(n_.value, bp)
+                if x_ and ("SERVICE_USERNAME" in x_[0] or "SERVICE_PASSWORD" in x_[0]):
+                    creds[n_.targets[0].id] = x_[0]
+        nb_ = 0
+        for r_ in [r for r in t.nodes_in(bp, ast.Return) if isinstance(r.value, ast.List) and r.value.elts]:
+            for c_, pol in paths.conditions(p, r_, bp):
+                ops_ = c_.values if isinstance(c_, ast.BoolOp) else [c_]
+                for o_ in ops_:
+                    names_ = {x.id for x in ast.walk(o_) if isinstance(x, ast.Name) and x.id in creds} | \
+                        {"<setting>" for x in ast.walk(o_) if isinstance(x, ast.Attribute) and x.attr in ("SERVICE_USERNAME", "SERVICE_PASSWORD")}
+                    if not names_:
+                        continue
+                    nb_ += 1
+                    okc = isinstance(o_, ast.Compare) and len(o_.ops) == 1 and isinstance(o_.ops[0], (ast.Is, ast.IsNot)) and \
+                        isinstance(o_.comparators[0], ast.Constant) and o_.comparators[0].value is None
+                    if okc:
+                        res.ok("C08.AUTH", {"basic provider: configured means not None": norm(o_)})
+                    else:
+                        res.fail(Finding("C08.AUTH", bp.qname, o_, bp.loc(o_), "the credentials are only sent when `%s`: a user name or password configured as the empty text counts as not "
+                                         "configured, and every poll and snapshot goes out without the authorization the settings ask for" % norm(o_)[:50]))
+        res.floor("credential tests of the basic provider", nb_, 2)
+    # the configuration of a snapshot action is also what the snapshot reports as the tracepoint's arguments - a map of text to
+    # text on the wire: apart from the watches (sent separately) every value put into it is text as the arguments gave it, never a
+    # number / flag made from it (one such value and the conversion of every snapshot of that tracepoint fails)
+    from .common import action_config_writers
+    nvals = 0
+    for q_, lst_ in sorted(action_config_writers(ctx).items()):
+        if not q_.endswith("build_snapshot_action"):
+            continue
+        for bf_, call_, keys_ in lst_:
+            for k_, v_ in sorted(keys_.items(), key=lambda kv: str(kv[0])):
+                if k_ in ("watches", "**") or v_ is None:
+                    continue
+                nvals += 1
+                conv = [n_ for n_ in ast.walk(v_) if isinstance(n_, ast.Call) and isinstance(n_.func, ast.Name) and n_.func.id in ("int", "float", "bool", "len", "round", "str2bool")]
+                num = isinstance(v_, ast.Constant) and v_.value is not None and not isinstance(v_.value, str)
+                if conv or num:
+                    res.fail(Finding("C08.TYPES", bf_.qname, v_, bf_.loc(v_), "the snapshot action's configuration gets `%s` under %s - not text: the configuration is sent as the tracepoint's "
+                                     "arguments (text to text), so every snapshot of such a tracepoint fails to convert and is dropped" % (norm(v_)[:50], k_)))
+                else:
+                    res.ok("C08.TYPES", {"argument kept as text": str(k_)})
+    res.floor("values of the snapshot action configuration", nvals, 5)
     return res
